@@ -36,6 +36,9 @@ func e13Run(r *Res, d e13desc, fireStep, firePoint int) int {
 	P := []time.Duration{time.Second, 10 * time.Second}[rng.Intn(2)]
 	plan := &kit.Plan{Seed: rng.U64(), PYield: 80, PSleep: 15, MaxSleep: 60 * time.Microsecond}
 	core := kit.NewCore(plan)
+	if firePoint <= 0 && fireStep >= 0 && (fireStep+d.Scen)%4 == 3 {
+		core = nil // race mode (step-triggered cases only; point triggers need the recording logger)
+	}
 	srv := kit.NewPodServer(core)
 	u := smallUniverse()
 	for i := 0; i < 3; i++ {
